@@ -232,7 +232,12 @@ type C14Codec struct {
 	S     string `json:"s"`
 }
 
-func evalC14Codec(c C14Codec) *h.Finding {
+func evalC14Codec(c C14Codec) (f *h.Finding) {
+	defer func() {
+		if p := recover(); p != nil {
+			f = h.F("c14-codec-panic", "%s codec panicked on %q: %v", c.Codec, c.S, p)
+		}
+	}()
 	var enc string
 	var dec string
 	var err error
